@@ -26,7 +26,7 @@ def run(ctx):
             if not is_sm and not all(objs.ssc_chart_has_notes(c) for c in sf.charts):
                 res.count("ssc_chart_without_notes"); continue
             params = c01.sm_params(sf) if is_sm else c02.ssc_params(sf)
-            if not objs.scan_safe(params):
+            if not objs.scan_safe(params, lead_nl=len(sf) == 0):
                 res.count("skipped_unsafe_for_msdparser"); continue
             d = objs.dump(sf)
             case = {"text": t if len(t) < 1500 else t[:700] + "…(%d chars)…" % len(t) + t[-300:], "strict": strict}
